@@ -85,6 +85,10 @@ Definition has_empty_bytes (p : list N) : bool :=
 
 Definition window : N := 1000000.
 
+(* the replay window on the newest accepted timestamp [cur] (0 = none yet) *)
+Definition window_refuse (cur ts : N) : bool := (0 <? cur) && (ts + window <? cur).
+Definition window_update (cur ts : N) : N := if cur <? ts then ts else cur.
+
 (* the InKey block of Reader.Read *)
 Definition check_key (key : list N) (st : rstate) (f : frame) : option N * rstate :=
   if negb (f_v2 f) then (Some pe_not_v2, st) else
@@ -94,8 +98,8 @@ Definition check_key (key : list N) (st : rstate) (f : frame) : option N * rstat
     let '(id, p) := raw_of f in
     if negb (bytes_eqb (gen_signature key f id p) sg) then (Some pe_wrong_sig, st) else
     let cur := r_cur_ts st in
-    if (0 <? cur) && (f_ts f + window <? cur) then (Some pe_too_old, st) else
-    (None, if cur <? f_ts f then mkRstate (f_ts f) else st)
+    if window_refuse cur (f_ts f) then (Some pe_too_old, st) else
+    (None, mkRstate (window_update cur (f_ts f)))
   end.
 
 (* the DialectRW block of Reader.Read *)
